@@ -21,8 +21,9 @@ class Rule:
 
 
 class Def:
-    def __init__(self, name, rulesets, lets=(), tags=(), note=''):
+    def __init__(self, name, rulesets, lets=(), tags=(), note='', nmax=None):
         self.name = name
+        self.nmax = nmax            # cap on N for definitions whose path count explodes (binary-search tables)
         self.rulesets = rulesets            # list of (name, [Rule]) ; first is Init
         self.lets = list(lets)              # top-level (name, regex)
         self.tags = set(tags)
